@@ -206,6 +206,16 @@ func runSelftestFor(id string, r *Report) int {
 }
 
 func cmdSelftest(args []string) int {
+	if len(args) > 0 && (args[0] == "--seeds" || args[0] == "--neutral") {
+		filter := ""
+		if len(args) > 1 {
+			filter = args[1]
+		}
+		if args[0] == "--seeds" {
+			return cmdPatchSelftest("seeded", false, filter)
+		}
+		return cmdPatchSelftest("neutral", true, filter)
+	}
 	var ms []Mutant
 	for _, m := range mutants {
 		if len(args) == 0 || m.Prop == args[0] || m.Name == args[0] {
